@@ -741,6 +741,10 @@ def split_meta_tiles(meta_tile, tiles, tile_size, image_opts):
         if tile_coord is None:
             continue
         data = splitter.get_tile(crop_coord, tile_size)
+        if not meta_tile.cacheable:
+            # images of the tiles are used on their own (e.g. cache as source
+            # of another cache), they need to know that they are uncacheable
+            data.cacheable = False
         new_tile = Tile(tile_coord, cacheable=meta_tile.cacheable)
         new_tile.source = data
         split_tiles.append(new_tile)
